@@ -17,7 +17,9 @@ Definition v1 (n : Z) : version := (1, n).
 Definition veqb (a b : version) : bool := (fst a =? fst b) && (snd a =? snd b).
 Definition toolchain : version := (1, 26).
 
-Definition cell_pkgv (c : cell) := pkg_version (Some (v1 (c_mod c))) (option_map v1 (c_flag c)) toolchain.
+(* c_mod = 0 encodes "no module information" (GOPATH mode) *)
+Definition cell_modv (m : Z) : option version := if m =? 0 then None else Some (v1 m).
+Definition cell_pkgv (c : cell) := pkg_version (cell_modv (c_mod c)) (option_map v1 (c_flag c)) toolchain.
 
 Inductive diffkind := DLang | DStd | DReport (probe : nat) (impl : bool).
 
@@ -59,7 +61,7 @@ Record clicell := mkCli {
   k_other : nat              (* number of unexpected problems *)
 }.
 Definition cli_std (c : clicell) : version :=
-  file_std_spec (pkg_version (Some (v1 (k_mod c))) (option_map v1 (k_flag c)) toolchain) (option_map v1 (k_tag c)).
+  file_std_spec (pkg_version (cell_modv (k_mod c)) (option_map v1 (k_flag c)) toolchain) (option_map v1 (k_tag c)).
 (* specification: SA1019 for an API deprecated since s is reported iff s <= stdlib version;
    SA1015 iff stdlib version < go1.23 *)
 Definition cli_violation (since : list Z) (c : clicell) : list (nat * bool) :=
